@@ -50,7 +50,11 @@ def _reverse_plugin() -> Any:
     return VfReverse
 
 
-def flags_for(role: str) -> Any:
+def flags_for(role: str, pool: bool = False) -> Any:
+    if role == 'forward' and pool:
+        if 'forward-pooled' not in _FLAGS:
+            _FLAGS['forward-pooled'] = K.make_flags(['--threadless', '--enable-conn-pool'])
+        return _FLAGS['forward-pooled']
     if role == 'web':
         from vf.props import c07
         if _FLAGS.get('web_dir') != c07.static_dir():      # the static dir is per process
@@ -98,7 +102,7 @@ def render_request(role: str, r: Dict[str, Any], i: int) -> bytes:
 
 def run_case(c: Dict[str, Any]) -> Dict[str, Any]:
     role = c['role']
-    flags = flags_for(role)
+    flags = flags_for(role, bool(c.get('pool')))
     w = K.World(flags, max_iters=30000)
     raws = [render_request(role, r, i) for i, r in enumerate(c['requests'])]
     reqs = [(raw, [x for x in r.get('cuts', []) if 0 < x < len(raw)]) for raw, r in zip(raws, c['requests'])]
@@ -261,7 +265,7 @@ def cases(draw: Any, role: str) -> Dict[str, Any]:
         q['cuts'] = draw(st.one_of(st.just([]), st.just([]), st.lists(st.integers(1, 200), min_size=1, max_size=4)))
         reqs.append(q)
     pipelined = draw(st.booleans())
-    c = {'role': role, 'requests': reqs, 'pipelined': pipelined,
+    c = {'role': role, 'requests': reqs, 'pipelined': pipelined, 'pool': role == 'forward' and draw(st.integers(0, 3)) == 0,
          'packing': draw(st.lists(st.integers(1, 4), min_size=1, max_size=4)) if pipelined and draw(st.booleans()) else [],
          'schedule': draw(st.lists(st.integers(0, 3), max_size=40))}
     return c
@@ -280,6 +284,8 @@ def run_shard(spec: Dict[str, Any], seed: int, acc: Any) -> None:
     def chk(c: Dict[str, Any]) -> List[Any]:
         vs, info = evaluate(c)
         labs = ['role:' + c['role'], 'pipelined' if c['pipelined'] else 'keep-alive', 'n:%d' % info['n']]
+        if c.get('pool'):
+            labs.append('conn-pool')
         if info['packed']:
             labs.append('several-requests-per-segment')
         if info['multi_seg']:
